@@ -387,9 +387,7 @@ void bn_mxp_crt(bn_t d, const bn_t a, const bn_t b, const bn_t c,
 		}
 		/* m1 = m1 - m2 mod p. */
 		bn_sub(d, t, u);
-		while (bn_sign(d) == RLC_NEG) {
-			bn_add(d, d, crt->p);
-		}
+		bn_mod(d, d, crt->p);
 		/* m1 = qInv(m1 - m2) mod p. */
 		bn_mul(d, d, crt->qi);
 		bn_mod(d, d, crt->p);
